@@ -325,7 +325,8 @@ func (reg *Reg) tagListLink(ctx context.Context, r ref.Ref, _ scheme.TagConfig, 
 	}
 	req := &reghttp.Req{
 		MetaKind:   reqmeta.Query,
-		Host:       r.Registry,
+		Host:       reg.hostByURL(r.Registry, link),
+		NoMirrors:  true,
 		Method:     "GET",
 		DirectURL:  link,
 		Repository: r.Repository,
